@@ -193,7 +193,10 @@ func MannWhitneyUTest(x1, x2 []float64, alt LocationHypothesis) (*MannWhitneyUTe
 			p = dist.CDF(U1)
 
 		case LocationGreater:
-			p = 1 - dist.CDF(U1-1)
+			// U moves in steps of 0.5 if there are ties (and
+			// CDF rounds down to a whole U if there are none),
+			// so P(U >= U1) is 1 - P(U <= U1-0.5).
+			p = 1 - dist.CDF(U1-0.5)
 		}
 	} else {
 		// Use normal approximation (with tie and continuity
